@@ -6,7 +6,8 @@
 (* behaviour it admits satisfies the protocol properties stated over ghost variables.     *)
 (*   sessions {1,2}, serial tokens {"1","2"}, records {4:a, 6:b, k:c}, versions {0,1},    *)
 (*   intervals refresh 100 / retry 700 / expire 600 (one failed reconnect cycle expires   *)
-(*   the data), payload buffers up to MaxBuf PDUs, clock bounded by MaxNow.               *)
+(*   the data) or retry 200 (two cycles do not), payload buffers up to MaxBuf PDUs, clock  *)
+(*   from T0 = 1000 bounded by MaxNow.                                                     *)
 EXTENDS RtrSocket, Json
 
 CONSTANTS MaxBuf, MaxNow, D
@@ -16,7 +17,9 @@ mvars == <<c, bad, hist>>
 L(n) == [s |-> ToString(n), n |-> n]
 Raw(tag) == "00112233445566778899aabb" \o tag
 Iv0 == [r |-> Mk(100), t |-> Mk(700), e |-> Mk(600)]
-CONSTANT RecSet, Modes
+Iv1 == [r |-> Mk(100), t |-> Mk(200), e |-> Mk(600)]      \* retry shorter than expire: reconnects while the data is still alive
+T0 == 1000                                                  \* the clock starts above 0 (lastOk = 0 means "never synchronised")
+CONSTANT RecSet, Modes, IvSet
 Recs == RecSet
 TypeOfRec(r) == IF Kind(r) = "4" THEN "ipv4" ELSE IF Kind(r) = "6" THEN "ipv6" ELSE "router_key"
 NatOf(t) == IF t = "ipv4" THEN 20 ELSE IF t = "ipv6" THEN 32 ELSE 123
@@ -27,8 +30,9 @@ FPayload == {[t |-> TypeOfRec(r), v |-> v, len |-> L(NatOf(TypeOfRec(r))), sess 
               raw |-> Raw("p" \o r \o ToString(fl) \o ToString(v))] : r \in Recs, fl \in {0, 1, 2}, v \in {1}}
 FEod == {[t |-> "eod", v |-> 1, len |-> L(24), sess |-> s, sn |-> n, iv |-> Iv0, raw |-> Raw("e" \o ToString(s) \o n)] :
             s \in {1, 2}, n \in {"1", "2"}}
-        \cup {[t |-> "eod", v |-> 1, len |-> L(24), sess |-> 1, sn |-> "2", iv |-> [r |-> Mk(86401), t |-> Mk(7201), e |-> Mk(599)],
-               raw |-> Raw("eiv")]}
+        \cup (IF "bad" \in IvSet THEN {[t |-> "eod", v |-> 1, len |-> L(24), sess |-> 1, sn |-> "2", iv |-> [r |-> Mk(86401), t |-> Mk(7201), e |-> Mk(599)],
+               raw |-> Raw("eiv")]} ELSE {})
+        \cup (IF "iv1" \in IvSet THEN {[t |-> "eod", v |-> 1, len |-> L(24), sess |-> 1, sn |-> "2", iv |-> Iv1, raw |-> Raw("eq")]} ELSE {})
         \cup {[t |-> "eod", v |-> 0, len |-> L(12), sess |-> s, sn |-> "1", raw |-> Raw("e0" \o ToString(s))] : s \in {1}}
 FOther == {[t |-> "cache_reset", v |-> 1, len |-> L(8), sess |-> 0, raw |-> Raw("rs")],
            [t |-> "serial_notify", v |-> 1, len |-> L(12), sess |-> 1, sn |-> "2", raw |-> Raw("sn")],
